@@ -551,6 +551,14 @@ def run_report(case):
         if ndf > 0 and (not m or not half_unit_ok(Shown(m.group(1)), float(gof) / ndf, slack=Decimal("1e-6"))):
             raise Violation("preface-gof-per-ndf", f"{tagbase}: preface {m.group(0) if m else None!r}, held {float(gof) / ndf!r}")
     rows = [ln[1:].split() for ln in pre if ln.startswith("# ") and ln[2:].split() and ln[2:].split()[0] in names]
+    # the column heads say what the columns are: value, (parabolic) uncertainty, with asymmetric uncertainties also 'down' and 'up', then the correlations
+    heads = [re.split(r"\s{2,}", ln[1:].strip()) for ln in pre if ln.startswith("#") and "Par name" in ln]
+    if rows and heads:
+        want_heads = (["Par name", "Par val", "Par err parabolic", "Par err down", "Par err up", "Par cor mat"] if any(len(r_) > 3 + len(names) for r_ in rows)
+                      else ["Par name", "Par val", "Par err", "Par cor mat"])
+        if heads[0] != want_heads:
+            raise Violation("preface-column-heads", f"{tagbase}: the table is headed {heads[0]!r}; its rows have {[len(r_) for r_ in rows]} entries for {len(names)} parameters "
+                            f"(expected heads {want_heads!r})")
     if did and errors_valid:
         if [r[0] for r in rows] != names:
             raise Violation("preface-names", f"{tagbase}: preface table lists {[r[0] for r in rows]}, fit has {names}")
